@@ -2136,6 +2136,17 @@ func (d *Document) parseBodySubElement(decoder *xml.Decoder, startElement xml.St
 	case "sectPr":
 		// 解析节属性
 		return d.parseSectionProperties(decoder, startElement)
+	case "bookmarkStart":
+		// 解析书签开始
+		bookmark := &BookmarkStart{
+			ID:   getAttributeValue(startElement.Attr, "id"),
+			Name: getAttributeValue(startElement.Attr, "name"),
+		}
+		return bookmark, d.skipElement(decoder, startElement.Name.Local)
+	case "bookmarkEnd":
+		// 解析书签结束
+		bookmark := &BookmarkEnd{ID: getAttributeValue(startElement.Attr, "id")}
+		return bookmark, d.skipElement(decoder, startElement.Name.Local)
 	default:
 		// 跳过未知元素
 		Debugf("跳过未知元素: %s", startElement.Name.Local)
